@@ -138,8 +138,9 @@ func (e *engine) generate(r *lib.Rng, tier string, i int) any {
 		if c := g.retypedCase(); c != nil {
 			return c
 		}
-	case r.Chance(1, 25):
-		// a successor whose input consists of static values only (SetStaticValue beside AddDependency, F-C15n)
+	case r.Chance(1, 12):
+		// a successor whose input consists of static values only (SetStaticValue beside AddDependency, F-C15n; round 6:
+		// twice as often — the only configuration in which the map handed to the converter is a compile-time constant)
 		T := tgtTypeW[r.Intn(len(tgtTypeW))]
 		c := &Case{T: T}
 		c.Note = "static-only:" + g.addStatics(c, g.enumPaths(T, g.depth, true))
@@ -329,6 +330,14 @@ func coqTerm(c *Case, o *outcome) string {
 		}
 		more = append(more, "("+lib.CoqList(srcs2)+", "+lib.CoqList(chunks2)+", "+oi2+", "+os2+")")
 	}
+	if o.Rerun == "ok" && o.RerunVal.knownSyms() || o.Rerun == "err" || o.Rerun == "panic" {
+		// the first request once more (Invoke only): compared with the model like every request
+		oi3 := map[string]string{"ok": "", "err": "RErr", "panic": "RPanic"}[o.Rerun]
+		if o.Rerun == "ok" {
+			oi3 = "(RVal " + o.RerunVal.coq() + ")"
+		}
+		more = append(more, "("+lib.CoqList(srcs)+", "+lib.CoqList(chunks)+", "+oi3+", SNone)")
+	}
 	return "(MkCase genv gpenv " + coqTy(c.T) + " " + lib.CoqList(ds) + " " + lib.CoqList(sts) + " " + lib.CoqList(srcs) + " " + lib.CoqList(chunks) +
 		" " + oc + " " + oi + " " + os + " " + lib.CoqBool(len(o.SrcMod) > 0) + " [] [] " + lib.CoqList(more) + ")"
 }
@@ -505,8 +514,20 @@ func (c *Case) normalize() {
 
 func (e *engine) runUnit(orig *Case) lib.Result {
 	var res lib.Result
-	outs := executeUnit(orig)
 	c := orig.expanded() // the oracle works on the resolved spelling of the keys
+	if !whiteBox {
+		// without the hook only what Compile accepts can be run (as static values of a node, see whitebox_off.go)
+		var ps [][]string
+		for _, s := range c.Unit {
+			ps = append(ps, s.To)
+		}
+		if hasConflict(ps) || !staticsValid(c.T, c.Unit) {
+			res.Obs = "unit case not run: built without the white-box group"
+			res.Tags = []string{"unit", "whitebox:unavailable"}
+			return res
+		}
+	}
+	outs := executeUnit(orig)
 	res.Obs = outs
 	fail := func(sig, what string) {
 		if res.Oracle == "" {
@@ -577,7 +598,7 @@ func (e *engine) Run(ci any) lib.Result {
 	var res lib.Result
 	outs := make([]*outcome, reps)
 	for i := range outs {
-		outs[i] = execute(orig)
+		outs[i] = execute(orig, i)
 	}
 	// the oracle and the reference work on the resolved spelling of the paths (promoted fields spelled out);
 	// the implementation and the model get the paths as declared
@@ -684,6 +705,23 @@ func (e *engine) Run(ci any) lib.Result {
 	if len(o.SrcMod) > 0 {
 		fail("source-modified", "a predecessor's output was modified: "+strings.Join(o.SrcMod, "; "))
 	}
+	// "identically on every run": the first request once more on the same runnable, after the consumer of the earlier
+	// results used what was made for it as scratch space, yields what it yielded the first time
+	if o.Rerun != "" && !conflict {
+		first, again := o.Invoke, o.Rerun
+		if o.InvVal != nil {
+			first += "=" + o.InvVal.String()
+		}
+		if o.RerunVal != nil {
+			again += "=" + o.RerunVal.String()
+		}
+		if first != again {
+			fail("rerun-differs", fmt.Sprintf("the same request once more on the same runnable (the successor had modified the input it was handed before) gave %s %s, the first time %s", again, o.RerunMsg, first))
+		}
+	}
+	if o.Burst != "" && !conflict {
+		fail("concurrent-differs", o.Burst)
+	}
 	rtChecked := false
 	if o.Compile == "accept" && !conflict && !staticsValid(c.T, c.Statics) {
 		fail("static-value-accepted", fmt.Sprintf("Compile accepted static values %v that do not fit %s", c.Statics, c.T))
@@ -708,6 +746,69 @@ func (e *engine) Run(ci any) lib.Result {
 				chunks2[i] = []*V{vals2[i]}
 			}
 			checkRequest(c, "second request on the same runnable: ", vals2, chunks2, reqObs{o.Invoke2, o.InvVal2, o.InvMsg2, o.Stream2, o.StrVals2, o.StrMsg2}, fail)
+		}
+		// a second successor of the same predecessors with mappings of its own (execution 1): each successor is handed
+		// the values of ITS mappings, and the first successor's input is what it is without the second
+		if t := outs[1]; t.TapInv != "" && o.Invoke == "ok" {
+			c2 := *c
+			c2.Statics = nil
+			c2.Decls = make([]Decl, len(c.Decls))
+			for i, ms := range tapMaps(c) {
+				c2.Decls[i] = c.Decls[i]
+				c2.Decls[i].Maps = ms
+			}
+			what := "a second successor fed by the same predecessors (of every declaration its last mapping only): "
+			// (a sub-set of an accepted set need not be accepted: a path from a predecessor of interface type is
+			// allowed only beside a whole-output mapping of the same declaration, validateFieldMapping)
+			tapReject := false
+			for i := range c2.Decls {
+				tapReject = tapReject || refStaticReject(c2.T, &c2.Decls[i])
+			}
+			switch {
+			case t.TapInv == "compile" && tapReject:
+			case t.TapInv != "ok":
+				fail("second-successor", what+"Invoke "+t.TapInv+" "+t.TapMsg+", without it Invoke succeeded")
+			case t.TapMainInv != "ok="+o.InvVal.String():
+				fail("second-successor", what+"the first successor was handed "+t.TapMainInv+", without the second "+o.InvVal.String())
+			default:
+				exp, cls := refRunS(c2.T, c2.Decls, vals, nil, false)
+				if cls != "ok" || len(t.TapInvVals) != 1 || !looseEq(exp, t.TapInvVals[0]) {
+					fail("second-successor", fmt.Sprintf("%sit was handed %v, the values of its mappings are %s", what, t.TapInvVals, loose(exp)))
+				}
+			}
+			if t.TapInv == "ok" && o.Stream == "ok" && t.TapStr != "" {
+				var expChunks []string
+				expOK := true
+				for i := range c2.Decls {
+					for _, ch := range chunks[i] {
+						v, cl := refRun(c2.T, []Decl{c2.Decls[i]}, []*V{ch}, true)
+						if cl != "ok" {
+							expOK = false
+							break
+						}
+						expChunks = append(expChunks, loose(v).String())
+					}
+				}
+				sort.Strings(expChunks)
+				var got []string
+				for _, v := range t.TapStrVals {
+					got = append(got, loose(v).String())
+				}
+				sort.Strings(got)
+				wantMain := "ok"
+				for _, v := range o.StrVals {
+					wantMain += ";" + v.String()
+				}
+				switch {
+				case !expOK:
+				case t.TapStr != "ok":
+					fail("second-successor", what+"Stream "+t.TapStr+" "+t.TapMsg+", without it Stream succeeded")
+				case t.TapMainStr != wantMain:
+					fail("second-successor", what+"Stream handed the first successor "+t.TapMainStr+", without the second "+wantMain)
+				case strings.Join(got, " ; ") != strings.Join(expChunks, " ; "):
+					fail("second-successor", fmt.Sprintf("%sStream handed it the chunks %v, the values of its mappings are %v", what, got, expChunks))
+				}
+			}
 		}
 		// Stream into an ordinary successor node: the engine concatenates the converted chunks into the
 		// node's input, which must be the input Invoke hands over. Chunks of a struct / pointer type without a
@@ -771,6 +872,12 @@ func (e *engine) Run(ci any) lib.Result {
 	}
 	if multiChunk {
 		res.Tags = append(res.Tags, "multi-chunk")
+	}
+	if o.Rerun != "" {
+		res.Tags = append(res.Tags, "rerun:"+o.Rerun)
+	}
+	if outs[1].TapInv != "" {
+		res.Tags = append(res.Tags, "second-successor:"+outs[1].TapInv+"/"+outs[1].TapStr)
 	}
 	if c.second() {
 		res.Tags = append(res.Tags, "req2", "req2-invoke:"+o.Invoke2)
